@@ -63,7 +63,7 @@ pub fn exec(a: &[&str]) -> String {
                     "blank" => d = DnaString::blank(f[1].parse().unwrap()),
                     "fb" => d = DnaString::from_bytes(&digits(f[1])),
                     "fa" => d = DnaString::from_acgt_bytes(&unhex(f[1])),
-                    "fs" => d = DnaString::from_dna_string(std::str::from_utf8(&unhex(f[1])).unwrap()),
+                    "fs" => d = DnaString::from_dna_string(&unhex(f[1]).iter().map(|b| *b as char).collect::<String>()),   // the bytes are code points (0..255)
                     _ => panic!("bad op"),
                 }
                 tr.push(show_t(&d));
@@ -187,7 +187,7 @@ pub fn gen(rng: &mut Rng, _tier: &str) -> String {
             12 | 13 => {
                 let n = if rng.chance(1, 3) { rng.below(140) } else { boundary_len(rng) };
                 let s: Vec<u8> = (0..n)
-                    .map(|_| if rng.chance(9, 10) { *rng.pick(b"ACGTacgt") } else { *rng.pick(b"NnXx-.0RYk") })
+                    .map(|_| if rng.chance(9, 10) { *rng.pick(b"ACGTacgt") } else if rng.chance(1, 4) { rng.range(128, 255) as u8 } else { *rng.pick(b"NnXx-.0RYk") })
                     .collect();
                 ops.push(format!("{}.{}", if rng.chance(1, 2) { "fa" } else { "fs" }, tohex(&s)));
                 len = n;
